@@ -43,6 +43,7 @@ struct ScriptedDec {
     seed: u64,
     seq: bool,
     iter_offset: u64,
+    first: bool,
 }
 
 impl LdpcDecoder for ScriptedDec {
@@ -61,11 +62,17 @@ impl LdpcDecoder for ScriptedDec {
         let mut r = Rng::new(self.seed, id);
         // seed u64::MAX = no delay at all: the workers then produce results far faster than the collector (which sends a report per frame) consumes them
         // seed u64::MAX - 1 = no delay and EVERY frame has exactly one bit error (each point then stops after exactly `target` frames)
-        if self.seed < u64::MAX - 1 {
+        // seed u64::MAX - 2 = every decoder's FIRST frame takes 6.5 s (no result at all reaches the collector for that long), then no delay;
+        // every frame has exactly one bit error
+        if self.seed == u64::MAX - 2 && self.first {
+            std::thread::sleep(Duration::from_millis(6500));
+        }
+        self.first = false;
+        if self.seed < u64::MAX - 2 {
             std::thread::sleep(Duration::from_micros(r.below(300) as u64));
         }
         let mut cw: Vec<u8> = llrs.iter().map(|&x| (x <= 0.0) as u8).collect();
-        let nerr = if self.seed == u64::MAX - 1 { 1 } else { ((id % 4) as usize).min(self.k) };
+        let nerr = if self.seed >= u64::MAX - 2 && self.seed != u64::MAX { 1 } else { ((id % 4) as usize).min(self.k) };
         for b in cw.iter_mut().take(nerr) {
             *b ^= 1;
         }
@@ -88,6 +95,7 @@ impl DecoderFactory for Scripted {
             seed: self.seed,
             seq: self.seq,
             iter_offset: self.iter_offset,
+            first: true,
         })
     }
 }
@@ -144,7 +152,10 @@ fn with_watchdog<F: FnOnce() -> String + Send + 'static>(f: F, secs: u64) -> Str
 
 pub fn run(ctx: &mut Ctx, _replay: Option<&[String]>) {
     let mut rng = Rng::new(ctx.seed, 13);
-    let h = test_matrix();
+    let h8 = test_matrix();
+    // a second code with k = 7 (not a power of two: k * num_frames is then not an exact scaling of num_frames)
+    let h7 = { let mut r = Rng::new(ctx.seed, 1313); crate::c12::staircase_h(&mut r, 5, 12) };
+    let h = h8.clone();
     let k = 8usize;
     let workers_list: Vec<usize> = if ctx.thorough { (1..=16).collect() } else { vec![1, 2, 16] };
     let ebn0s: [f32; 2] = [60.0, 61.0];
@@ -166,7 +177,7 @@ pub fn run(ctx: &mut Ctx, _replay: Option<&[String]>) {
                         seed: if rep % 2 == 1 { u64::MAX } else { ctx.seed * 1000 + rep as u64 }, seq: false, iter_offset: offset,
                     };
                     let (tx, rx) = mpsc::channel();
-                    let h2 = h.clone();
+                    let (h2, k) = if rep % 2 == 0 { (h8.clone(), 8usize) } else { (h7.clone(), 7usize) };
                     let built = fac.built.clone();
                     let out = with_watchdog(move || {
                         let t = BerTestBuilder {
@@ -243,6 +254,40 @@ pub fn run(ctx: &mut Ctx, _replay: Option<&[String]>) {
             }, 60);
             ctx.emit(&format!("c13 sparse {} {} 3 {}", k, target, nw), &out, true, &["long-interval-reporter-three-points-all-frames-in-error"]);
         }
+    }
+    // a decoder whose first frame takes 6.5 s: for that long no result reaches the collecting thread; the point must still collect exactly
+    // `target` frame errors (every frame is one) -- the collector waits for results, it does not give up
+    {
+        let nw = set_workers(2);
+        let fac = Scripted {
+            counter: Arc::new(AtomicU64::new(0)), log: Arc::new(Mutex::new(Vec::new())), log_limit: 0,
+            panic_every: 0, built: Arc::new(AtomicU64::new(0)), seed: u64::MAX - 2, seq: false, iter_offset: 0,
+        };
+        let (tx, rx) = mpsc::channel();
+        let h2 = h.clone();
+        let out = with_watchdog(move || {
+            let t = BerTestBuilder {
+                h: h2, decoder_implementation: fac, modulation: Modulation::Bpsk, puncturing_pattern: None,
+                interleaving_columns: None, max_frame_errors: 2, max_iterations: 9, ebn0s_db: &[60.0],
+                reporter: Some(Reporter { tx, interval: Duration::from_secs(3600) }), bch_max_errors: 0,
+            }.build().unwrap();
+            match t.run() {
+                Ok(stats) => {
+                    let mut toks = Vec::new();
+                    for r in rx.try_iter() {
+                        match r {
+                            Report::Finished => toks.push("FIN".to_string()),
+                            Report::Statistics(s) => toks.push(format!("{}@{}", stat_token("R", 0, &s), hx(s.ebn0_db as f64))),
+                        }
+                    }
+                    toks.push("|".to_string());
+                    for s in stats.iter() { toks.push(format!("{}@{}", stat_token("R", 0, s), hx(s.ebn0_db as f64))); }
+                    toks.join(" ")
+                }
+                Err(_) => "err".to_string(),
+            }
+        }, 60);
+        ctx.emit(&format!("c13 sparse {} 2 1 {}", k, nw), &out, true, &["decoder-whose-first-frame-takes-6.5-seconds"]);
     }
     // sequential runs: ONE worker and ONE Eb/N0 point, so the frames are consumed in id order 1, 2, 3, ... and the model can replay them
     // without identifying them by their iteration count -- which frees the iteration count to be small and 0
